@@ -271,7 +271,14 @@ func MergeDocumentsAndIndividuals(left, right *Document, mergeFn MergeFunction, 
 
 	allNodes := append(mergedIndividuals.Nodes(), mergedOther...)
 
-	return NewDocumentWithNodes(allNodes), nil
+	// All of the merged nodes were attached to document, so that is the
+	// document that has to hold them. Individuals and families resolve their
+	// references through the document they belong to.
+	document.nodes = allNodes
+	document.families = nil
+	document.buildPointerCache()
+
+	return document, nil
 }
 
 // IndividualBySurroundingSimilarityMergeFunction creates a MergeFunction that
